@@ -37,7 +37,19 @@ EvEqM(a, b, C) == /\ a.blk = b.blk /\ a.args = b.args /\ a.store = b.store /\ a.
 RECURSIVE SubM(_,_,_,_,_)
 SubM(os, j, xs, i, C) == IF j > Len(os) THEN TRUE ELSE IF i > Len(xs) THEN FALSE
                          ELSE IF EvEqM(os[j], xs[i], C) THEN SubM(os, j+1, xs, i+1, C) ELSE SubM(os, j, xs, i+1, C)
+HasLRG(G) == \E i \in 1..Len(G.lr) : G.lr[i] > 0
+RECURSIVE SupM(_,_,_,_,_)
+SupM(xs, i, os, j, C) == IF i > Len(xs) THEN TRUE ELSE IF j > Len(os) THEN FALSE         \* the reference events are a subsequence of the machine's
+                         ELSE IF EvEqM(os[j], xs[i], C) THEN SupM(xs, i+1, os, j+1, C) ELSE SupM(xs, i, os, j+1, C)
 Refines(C, o, x) ==
+  IF HasLRG(C.G) THEN       \* C08: the seed-growing machine against the iterative meaning
+       \/ x.ab # "none" \/ o.ab # "none"
+       \/ /\ o.ok = x.ok /\ o.end = x.end
+          /\ ("lrrepeat" \in x.haz \/ (C.opt.memo /\ "rulerepeat" \in x.haz) \/      \* the second: known finding F21 (as built)
+              (/\ o.val = x.val /\ o.store = x.store
+               /\ Len(o.errs) = Len(x.errs) /\ \A i \in 1..Len(x.errs) : o.errs[i] = x.errs[i]
+               /\ (C.opt.memo \/ SupM(x.events, 1, o.events, 1, C))))
+  ELSE
   IF x.ab = "div" THEN o.ab = "budget"                      \* the meaning diverges: only the budget ends the run
   ELSE IF o.ab = "budget" THEN (x.cnt + 3 > C.opt.maxexpr)
   ELSE /\ o.ok = x.ok /\ o.end = x.end
